@@ -541,19 +541,411 @@ static int case_cast(const std::string &c) {
   return v.ok ? 0 : 3;
 }
 
+
+// ---------------------------------------------------------------------------------- reuse histories
+// Differential oracle: the second call on a REUSED object == the same call on a fresh object.
+static std::string pdump(const Property &p) {  // everything observable, incl. path()
+  std::string o = "{" + p.name() + "|" + p.value() + "|" + p.path() + "|";
+  for (auto it = p.firstAttribute(); it != p.lastAttribute(); ++it) o += it->first + "=" + it->second + ";";
+  o += p.HasChildren() ? "|C" : "|L";
+  for (const Property &k : p) o += pdump(k);
+  return o + "}";
+}
+static std::string repo_root() {
+  const char *repo = getenv("VERIF_REPO");
+  return repo ? repo : "/repo";
+}
+static void spit(const std::string &file, const std::string &text) {
+  ::unlink(file.c_str());
+  std::ofstream f(file, std::ios::trunc | std::ios::binary);
+  f << text;
+}
+static std::vector<std::string> xml_names(const std::string &dir) {
+  std::vector<std::string> names;
+  if (DIR *d = opendir(dir.c_str())) {
+    while (dirent *e = readdir(d)) {
+      std::string n = e->d_name;
+      if (n.size() > 4 && n.substr(n.size() - 4) == ".xml") names.push_back(n.substr(0, n.size() - 4));
+    }
+    closedir(d);
+  }
+  std::sort(names.begin(), names.end());
+  return names;
+}
+
+// --- (h) one OptionsHandler, two public calls in a row
+struct HItem { int kind; std::string calc, xml, extra; };  // kind 0 ProcessUserInput, 1 CalculatorOptions
+static std::vector<HItem> hitems() {
+  std::vector<HItem> v = {
+      {0, "dftgwbse", "<options><dftgwbse/></options>", ""},
+      {0, "dftgwbse", "<options><dftgwbse><tasks>gwbse</tasks><mpsfile>m.mps</mpsfile><dftpackage><orca><method>x</method></orca>"
+                      "<charge>-1</charge></dftpackage></dftgwbse></options>", ""},
+      {0, "qmmm", "<options><qmmm><regions><qmregion><id>0</id><state>s1</state></qmregion><polarregion><id>1</id><cutoff>"
+                  "<radius>1.5</radius><region>0</region></cutoff></polarregion><qmregion><id>2</id></qmregion></regions></qmmm></options>", ""},
+      {0, "qmmm", "<options><qmmm><max_iterations>-3</max_iterations><regions/></qmmm></options>", ""},
+      {0, "neighborlist", "<options><neighborlist><segmentpairs><pair><type>A B</type><cutoff>1</cutoff></pair><pair><type>C D</type>"
+                          "<cutoff>2</cutoff></pair></segmentpairs></neighborlist></options>", ""},
+      {1, "dftgwbse", "", ""},
+      {0, "eqm", "<options><eqm><map_file>jobfile</map_file><gwbse><gw><mode>jobfile</mode></gw></gwbse></eqm></options>", "jobfile"},
+      {0, "eqm", "<options><eqm><map_file>jobfile</map_file><gwbse><gw><mode>jobfile</mode></gw></gwbse></eqm></options>", ""},
+      {0, "qmmm", "<options><qmmm><regions><staticregion><id>0</id></staticregion></regions><zz_undeclared>1</zz_undeclared></qmmm></options>", ""},
+      {1, "qmmm", "", ""},
+  };
+  for (auto &n : xml_names(repo_root() + "/xtp/share/xtp/xml")) {
+    v.push_back({0, n, "<options><" + n + "/></options>", ""});
+    v.push_back({1, n, "", ""});
+  }
+  return v;
+}
+static std::string hcall(votca::tools::OptionsHandler &h, const HItem &it, std::string *user_changed = nullptr) {
+  std::vector<std::string> extra;
+  if (!it.extra.empty()) extra = bsx::split(it.extra, ',');
+  h.setAdditionalChoices(extra);  // set / unset between the calls
+  try {
+    if (it.kind == 1) return "OK " + pdump(h.CalculatorOptions(it.calc));
+    spit("u.xml", it.xml);
+    Property user;
+    user.LoadFromXML("u.xml");
+    std::string before = pdump(user);
+    std::string out;
+    try {
+      out = "OK " + pdump(h.ProcessUserInput(user, it.calc));
+    } catch (const std::exception &e) {
+      out = std::string("ERR ") + e.what();
+    }
+    if (user_changed && pdump(user) != before) *user_changed = "user input tree was modified by ProcessUserInput";
+    return out;
+  } catch (const std::exception &e) {
+    return std::string("ERR ") + e.what();
+  }
+}
+static std::string brief(const HItem &it) {
+  return (it.kind ? "CalculatorOptions(" : "ProcessUserInput(") + it.calc + (it.kind ? "" : ", " + it.xml.substr(0, 70)) +
+         (it.extra.empty() ? ")" : ") +choices{" + it.extra + "}");
+}
+static Verdict check_h(size_t i, size_t j) {
+  auto items = hitems();
+  const HItem &a = items.at(i), &b = items.at(j);
+  std::string dir = repo_root() + "/xtp/share/xtp/xml/";
+  votca::tools::OptionsHandler reused(dir), fresh(dir);
+  std::string changed;
+  hcall(reused, a, &changed);
+  std::string second = hcall(reused, b, &changed);
+  std::string ref = hcall(fresh, b);
+  std::string what = "one OptionsHandler: " + brief(a) + " then " + brief(b) + ": ";
+  if (!changed.empty()) return {false, "reuse-handler-user-input-modified", what + changed, 0};
+  if (second != ref) {
+    size_t k = 0;
+    while (k < second.size() && k < ref.size() && second[k] == ref[k]) k++;
+    return {false, "reuse-handler-second-call-differs",
+            what + "second result differs from the same call on a fresh handler at byte " + std::to_string(k) + ": reused '" +
+                second.substr(k > 30 ? k - 30 : 0, 100) + "' fresh '" + ref.substr(k > 30 ? k - 30 : 0, 100) + "'", 0};
+  }
+  return {true, "", "", bsx::fnv(second.substr(0, 3) + std::to_string(second.size() % 7))};
+}
+
+// --- (l) LoadFromXML twice into one Property: property.cc pushes `this` and add()s, i.e. APPENDS
+static std::vector<std::pair<std::string, std::string>> lfiles() {  // (name, content or "" = shipped file of that path)
+  std::vector<std::pair<std::string, std::string>> v = {
+      {"f0.xml", "<a>v</a>"},
+      {"f1.xml", "<?xml version=\"1.0\"?>\n<a p=\"1\"><b>x</b><b>y</b></a>\n"},
+      {"f2.xml", "<c/>"},
+      {"f3.xml", "<a><c>z</c></a>"},
+      {"f4.xml", "<a>t<b q=\"&amp;\"/>u</a>"},
+      {repo_root() + "/xtp/share/xtp/xml/dftgwbse.xml", ""},
+  };
+  for (auto &n : xml_names(repo_root() + "/xtp/share/xtp/xml")) v.push_back({repo_root() + "/xtp/share/xtp/xml/" + n + ".xml", ""});
+  for (auto &n : xml_names(repo_root() + "/xtp/share/xtp/xml/subpackages"))
+    v.push_back({repo_root() + "/xtp/share/xtp/xml/subpackages/" + n + ".xml", ""});
+  return v;
+}
+static Verdict check_l(size_t i, size_t j) {
+  auto files = lfiles();
+  for (size_t k : {i, j})
+    if (!files.at(k).second.empty()) spit(files[k].first, files[k].second);
+  Property twice, f1, f2;
+  twice.LoadFromXML(files[i].first);
+  twice.LoadFromXML(files[j].first);
+  f1.LoadFromXML(files[i].first);
+  f2.LoadFromXML(files[j].first);
+  std::string what = "one Property: LoadFromXML(" + files[i].first + ") then LoadFromXML(" + files[j].first + "): ";
+  std::string exp, got;
+  for (const Property &k : f1) exp += pdump(k);
+  for (const Property &k : f2) exp += pdump(k);
+  for (const Property &k : twice) got += pdump(k);
+  if (got != exp) return {false, "reuse-load-twice-not-appended", what + "children are not those of the first load followed by those of the second", 0};
+  if (twice.name() != "" || twice.value() != f2.value() || twice.hasAttributes())
+    return {false, "reuse-load-twice-root-changed", what + "root name/value/attributes changed: value '" + twice.value() + "'", 0};
+  // lookups must see the second document (last wins) exactly as a fresh load does
+  const Property &r2 = *f2.begin();
+  if (!twice.exists(r2.name()) || pdump(twice.get(r2.name())) != pdump(r2))
+    return {false, "reuse-load-twice-lookup-stale", what + "get(" + r2.name() + ") does not return the root of the second document", 0};
+  if ((Index)twice.Select(r2.name()).size() != (Index)(f1.Select(r2.name()).size() + 1))
+    return {false, "reuse-load-twice-select", what + "Select(" + r2.name() + ") count wrong", 0};
+  return {true, "", "", bsx::fnv("l" + std::to_string(twice.size()) + (f1.begin()->name() == r2.name() ? "same" : "diff"))};
+}
+
+// --- (m) a tree modified in place between two write+load round trips
+static const char *OPS[] = {"none", "add-root", "add-first", "set-first", "del-a", "del-all", "attr-set", "attr-set2", "attr-del",
+                            "add-copy", "value"};
+static const int NOPS = 11;
+static bool apply_op(int op, T &t, Property &p) {  // t model, p the live object (root element); false: op not applicable
+  switch (op) {
+    case 0: return true;
+    case 1: { T k; k.name = "c"; k.value = "n"; t.kids.push_back(k); p.add("c", "n"); return true; }
+    case 2: {
+      if (t.kids.empty()) return false;
+      T k; k.name = "b"; k.value = "";
+      t.kids[0].kids.push_back(k);
+      p.begin()->add("b", "");
+      return true;
+    }
+    case 3: {
+      if (t.kids.empty()) return false;
+      // set() addresses the LAST child with that name
+      std::string n = t.kids[0].name;
+      for (size_t i = t.kids.size(); i-- > 0;)
+        if (t.kids[i].name == n) { t.kids[i].value = "w"; break; }
+      p.set(n, "w");
+      return true;
+    }
+    case 4: {
+      std::vector<T> keep;
+      for (auto &k : t.kids) if (k.name != "a") keep.push_back(k);
+      t.kids = keep;
+      p.deleteChildren([](const Property &c) { return c.name() == "a"; });
+      return true;
+    }
+    case 5: t.kids.clear(); p.deleteChildren([](const Property &) { return true; }); return true;
+    case 6: case 7: {
+      std::string v = op == 6 ? "1" : "2 <&\"";
+      bool found = false;
+      for (auto &a : t.attrs) if (a.first == "p") { a.second = v; found = true; }
+      if (!found) { t.attrs.push_back({"p", v}); std::sort(t.attrs.begin(), t.attrs.end()); }
+      p.setAttribute<std::string>("p", v);
+      return true;
+    }
+    case 8: {
+      std::vector<std::pair<std::string, std::string>> keep;
+      for (auto &a : t.attrs) if (a.first != "p") keep.push_back(a);
+      t.attrs = keep;
+      p.deleteAttribute("p");
+      return true;
+    }
+    case 9: {
+      if (t.kids.empty()) return false;
+      T k = t.kids[0];
+      t.kids.push_back(k);
+      Property c = *p.begin();
+      p.add(c);
+      return true;
+    }
+    case 10: t.value = t.value.empty() ? "nv" : ""; p.value() = t.value; return true;
+  }
+  return false;
+}
+static std::string slurp(const std::string &f) {
+  std::ifstream in(f);
+  std::stringstream ss;
+  ss << in.rdbuf();
+  return ss.str();
+}
+static bool write_load(const Property &root, T &back, std::string &text, std::string &why) {
+  ::unlink("m.xml");
+  {
+    std::ofstream f("m.xml", std::ios::trunc);
+    PropertyIOManipulator iom(PropertyIOManipulator::XML, 1, "");
+    f << iom << root;
+  }
+  text = slurp("m.xml");
+  Property b;
+  try { b.LoadFromXML("m.xml"); } catch (const std::exception &e) { why = std::string("reload throws: ") + e.what(); return false; }
+  if (b.size() != 1) { why = "reloaded document has " + std::to_string(b.size()) + " top-level elements"; return false; }
+  back = from_prop(*b.begin());
+  return true;
+}
+static Verdict check_m(const T &t0, int op1, int op2) {
+  T t = t0;
+  Property root;
+  to_prop(t, root);
+  Property &live = *root.begin();
+  std::string e;
+  enc(t0, 0, e);
+  std::string what = "tree " + show(t0) + ": write+load, " + OPS[op1] + ", " + OPS[op2] + ", write+load: ";
+  T back;
+  std::string text, why;
+  if (!write_load(root, back, text, why) || !same(t, back, why)) return {false, "reuse-modify-first-roundtrip", what + why, 0};
+  if (!apply_op(op1, t, live) || !apply_op(op2, t, live)) return {true, "", "", 0};  // not applicable
+  // the live object must now look like the model ...
+  if (!same(t, from_prop(live), why)) return {false, "reuse-modify-object-differs-from-model", what + "object after the edits: " + why, 0};
+  if (live.HasChildren() != !t.kids.empty()) return {false, "reuse-modify-haschildren-stale", what + "HasChildren() is stale", 0};
+  for (auto &k : t.kids) {
+    if (!live.exists(k.name)) return {false, "reuse-modify-lookup-stale", what + "exists(" + k.name + ") false after the edits", 0};
+    // get() = last child with that name
+    const T *last = nullptr;
+    for (auto &x : t.kids) if (x.name == k.name) last = &x;
+    if (!same(*last, from_prop(live.get(k.name)), why)) return {false, "reuse-modify-lookup-stale", what + "get(" + k.name + "): " + why, 0};
+  }
+  for (const char *n : {"a", "b", "c"}) {
+    bool ex = false;
+    for (auto &x : t.kids) ex = ex || x.name == n;
+    if (live.exists(n) != ex) return {false, "reuse-modify-lookup-stale", what + "exists(" + n + ") wrong after the edits", 0};
+  }
+  // ... and write+load of the reused object == write+load of a freshly built equal tree
+  std::string text2, textf;
+  T back2, backf;
+  if (!write_load(root, back2, text2, why) || !same(t, back2, why)) return {false, "reuse-modify-second-roundtrip", what + why, 0};
+  Property fresh;
+  to_prop(t, fresh);
+  if (!write_load(fresh, backf, textf, why)) return {false, "reuse-modify-second-roundtrip", what + "fresh tree: " + why, 0};
+  if (text2 != textf) return {false, "reuse-modify-written-file-differs-from-fresh", what + "file written from the edited object differs from the file written from a fresh equal tree", 0};
+  return {true, "", "", bsx::fnv(std::string(OPS[op1]) + OPS[op2] + std::to_string(t.kids.size()))};
+}
+
+// --- (a) as<T> after value() was changed
+static const char *ALITS[] = {"5", "-7", "true", "FALSE", "1", "0", "2.5", "1e3", "x", "", " 12 ", "1 2 3", "1,2", "1 2 3 4", "nan?", "0x10"};
+static const int NALITS = 16;
+static const char *ATYPES[] = {"bool", "int", "float", "str", "vec3", "vecx", "veci"};
+static std::string as_outcome(const std::string &type, const Property &p) {
+  try {
+    if (type == "bool") return p.as<bool>() ? "ok:true" : "ok:false";
+    if (type == "int") return "ok:" + std::to_string(p.as<Index>());
+    if (type == "float") return "ok:" + bsx::hexd(p.as<double>());
+    if (type == "str") return "ok:" + p.as<std::string>();
+    std::string o = "ok:";
+    if (type == "vec3") { Eigen::Vector3d v = p.as<Eigen::Vector3d>(); for (int i = 0; i < 3; i++) o += bsx::hexd(v[i]) + ","; }
+    else if (type == "vecx") { Eigen::VectorXd v = p.as<Eigen::VectorXd>(); for (Index i = 0; i < v.size(); i++) o += bsx::hexd(v[i]) + ","; }
+    else { for (Index i : p.as<std::vector<Index>>()) o += std::to_string(i) + ","; }
+    return o;
+  } catch (const std::runtime_error &e) {
+    return std::string("err:") + e.what();
+  }
+}
+static Verdict check_a(int ti, int i, int j, int how) {
+  std::string type = ATYPES[ti];
+  Property parent("par", "", "");
+  Property &p = parent.add("n", ALITS[i]);
+  p.setAttribute<std::string>("at", ALITS[i]);
+  std::string first = as_outcome(type, p);
+  if (how == 0) p.value() = ALITS[j];
+  else parent.set("n", ALITS[j]);
+  p.setAttribute<std::string>("at", ALITS[j]);
+  std::string second = as_outcome(type, p);
+  Property parent2("par", "", "");
+  Property &q = parent2.add("n", ALITS[j]);
+  std::string ref = as_outcome(type, q);
+  std::string what = "as<" + type + "> on '" + ALITS[i] + "' (" + first + "), value changed to '" + ALITS[j] + "' by " +
+                     (how ? "set()" : "value()=") + ": ";
+  if (second != ref) return {false, "reuse-as-after-value-change", what + "got " + second + ", a fresh Property gives " + ref, 0};
+  if (p.getAttribute<std::string>("at") != std::string(ALITS[j])) return {false, "reuse-attribute-after-overwrite", what + "attribute not replaced", 0};
+  return {true, "", "", bsx::fnv(type + second.substr(0, 3))};
+}
+
+static void all_small_trees(int maxn, const std::vector<std::string> &V, const std::function<void(const T &)> &f) {
+  for (int n = 1; n <= maxn; n++) {
+    std::vector<std::vector<int>> sh;
+    shapes(n, sh);
+    for (auto &depth : sh) {
+      std::vector<int> idx(2 * n, 0), radix;
+      for (int i = 0; i < n; i++) radix.push_back(2);
+      for (int i = 0; i < n; i++) radix.push_back((int)V.size());
+      do {
+        std::vector<T> nodes(n);
+        for (int i = 0; i < n; i++) { nodes[i].name = idx[i] ? "b" : "a"; nodes[i].value = V[idx[n + i]]; }
+        f(build_shape(depth, nodes));
+      } while (bsx::next(idx, radix));
+    }
+  }
+}
+
+static int mode_reuse(const bsx::Args &a, bsx::Report &R) {
+  bool thorough = a.tier == "thorough";
+  R.rule =
+      "reuse (differential: second call on a reused object == same call on a fresh object). h: one OptionsHandler, all ordered "
+      "pairs (incl. i=j) of public calls from 10 base items (ProcessUserInput on dftgwbse/qmmm/neighborlist/eqm trees accepted and "
+      "rejected, CalculatorOptions, additional choices {jobfile} set for one item and unset for the next) - thorough: + empty input "
+      "and CalculatorOptions of every shipped calculator (66 items); full dump (names, values, paths, attributes) of the second "
+      "result compared, user input tree must be untouched. l: LoadFromXML twice into one Property, all ordered pairs of 6 files "
+      "(thorough: + every shipped xml incl. subpackages): children == first document's followed by second's (property.cc appends), "
+      "root untouched, get()/Select() see the second document. m: every tree <=3 nodes over names {a,b}, values {'',v,<} x every "
+      "in-place edit (add, add below first child, set, deleteChildren(name a), deleteChildren(all), setAttribute twice, "
+      "deleteAttribute, add(copy of first child), value change; thorough: every ordered pair of edits) between two write+load "
+      "round trips: object == plain model, exists/get/HasChildren consistent, reloaded tree == model, written file byte-identical "
+      "to that of a freshly built equal tree. a: as<T> (7 types) on literal i, value changed to literal j through value()= or "
+      "set(), all ordered pairs of 16 literals: result == fresh Property with literal j. distinct = (sub-space, outcome kind).";
+  long long ci = 0;
+  auto rec = [&](const Verdict &v, const std::string &cas, const std::string &sample) {
+    R.eval();
+    if (v.cls) R.cls(v.cls);
+    if (!v.ok) R.fail(v.key, v.what, cas);
+    else if (R.evaluations % 211 == 1) R.sample(sample);
+  };
+  size_t nh = thorough ? hitems().size() : 10, nl = thorough ? lfiles().size() : 6;
+  for (size_t i = 0; i < nh; i++)
+    for (size_t j = 0; j < nh; j++) {
+      if (!a.mine(ci++)) continue;
+      R.counters["handler_pairs"]++;
+      rec(check_h(i, j), "ru:h:" + std::to_string(i) + ":" + std::to_string(j),
+          "one handler, calls #" + std::to_string(i) + " then #" + std::to_string(j) + ": second result identical to a fresh handler's");
+    }
+  for (size_t i = 0; i < nl; i++)
+    for (size_t j = 0; j < nl; j++) {
+      if (!a.mine(ci++)) continue;
+      R.counters["load_twice_pairs"]++;
+      rec(check_l(i, j), "ru:l:" + std::to_string(i) + ":" + std::to_string(j),
+          "LoadFromXML of files #" + std::to_string(i) + " then #" + std::to_string(j) + " into one Property: appended, lookups see the second");
+    }
+  all_small_trees(3, {"", "v", "<"}, [&](const T &t) {
+    for (int o1 = 0; o1 < NOPS; o1++)
+      for (int o2 = 0; o2 < (thorough ? NOPS : 1); o2++) {
+        if (!a.mine(ci++)) continue;
+        R.counters["modify_histories"]++;
+        std::string e;
+        enc(t, 0, e);
+        rec(check_m(t, o1, o2), "ru:m:" + std::to_string(o1) + ":" + std::to_string(o2) + ":" + e,
+            "tree " + show(t) + " write+load, " + OPS[o1] + "," + OPS[o2] + ", write+load: consistent with model and fresh tree");
+      }
+  });
+  for (int ti = 0; ti < 7; ti++)
+    for (int i = 0; i < NALITS; i++)
+      for (int j = 0; j < NALITS; j++)
+        for (int how = 0; how < 2; how++) {
+          if (!a.mine(ci++)) continue;
+          R.counters["as_after_change"]++;
+          rec(check_a(ti, i, j, how), "ru:a:" + std::to_string(ti) + ":" + std::to_string(i) + ":" + std::to_string(j) + ":" + std::to_string(how),
+              std::string("as<") + ATYPES[ti] + "> '" + ALITS[i] + "' -> '" + ALITS[j] + "' same as fresh");
+        }
+  return 0;
+}
+static int case_reuse(const std::string &c) {
+  auto f = bsx::split(c, ':');
+  Verdict v{true, "", "", 0};
+  if (f.at(1) == "h") v = check_h(atoi(f.at(2).c_str()), atoi(f.at(3).c_str()));
+  else if (f[1] == "l") v = check_l(atoi(f.at(2).c_str()), atoi(f.at(3).c_str()));
+  else if (f[1] == "m") {
+    size_t pos = 0;
+    for (int k = 0; k < 4; k++) pos = c.find(':', pos) + 1;
+    v = check_m(dec(c.substr(pos)), atoi(f.at(2).c_str()), atoi(f.at(3).c_str()));
+  } else v = check_a(atoi(f.at(2).c_str()), atoi(f.at(3).c_str()), atoi(f.at(4).c_str()), atoi(f.at(5).c_str()));
+  printf("%s: %s\n", c.c_str(), v.ok ? "holds" : ("FAILS key=" + v.key + ": " + v.what).c_str());
+  return v.ok ? 0 : 3;
+}
+
 int main(int argc, char **argv) {
   bsx::Args a = bsx::parse(argc, argv);
   if (a.has_case) {
     if (a.cas.rfind("lit:", 0) == 0) return case_cast(a.cas);
+    if (a.cas.rfind("ru:", 0) == 0) return case_reuse(a.cas);
     return case_rt(a.cas);
   }
   std::string mode = a.kv.count("mode") ? a.kv["mode"] : "rt";
   bsx::Report R;
   R.property = "C11";
-  R.part = mode == "rt" ? "roundtrip" : "cast";
+  R.part = mode == "rt" ? "roundtrip" : mode == "reuse" ? "reuse" : "cast";
   R.tier = a.tier;
   R.max_samples = 10;
   if (mode == "rt") mode_rt(a, R);
+  else if (mode == "reuse") mode_reuse(a, R);
   else mode_cast(a, R);
   if (!a.out.empty()) R.write(a.out);
   return 0;
